@@ -6,6 +6,7 @@ import DryocVerif.Proofs.Curve
 import DryocVerif.Proofs.CurveExtra
 import DryocVerif.Proofs.CurveOrder8
 import DryocVerif.Proofs.GenCurve
+import DryocVerif.Proofs.CurveHonest
 /-
 C05 — Curve25519 scalar multiplication and the key exchange built on it.
 
@@ -14,8 +15,13 @@ What is proved about dryoc's own code (`Model.Curve`, mirroring
 
 * `clamp` is RFC 7748's `decodeScalar25519` byte manipulation, is idempotent, keeps the
   length and produces a scalar in `[2^254, 2^255)` that is a multiple of 8;
-* `crypto_scalarmult_curve25519` drives the ladder with the clamped scalar *itself*:
-  instantiated with the RFC ladder it **is** RFC 7748's X25519 (`scalarmult_eq_x25519`);
+* `crypto_scalarmult_curve25519`: since the repair of E1 the Rust is ONE call,
+  `MontgomeryPoint(*p).mul_clamped(*n)` of curve25519-dalek — clamping and ladder are dalek's code, not
+  dryoc's.  The MODEL's `scalarmult P n p := P.ladder (clamp n) p` is *defined* as "the ladder driven by the
+  clamped scalar itself", so `scalarmult_eq_x25519` (model with the RFC ladder = RFC 7748's X25519) is a
+  statement about the model's definition: it unfolds definitions and uses only `clamp_eq_spec`.  What ties
+  the Rust call to it is the DIFFERENTIAL test (`scalarmult` rows of the driver against the crate, including
+  low-order, twist and non-canonical points), not a proof;
 * the repaired defect E1 (scalar reduced modulo the group order `L` before the ladder):
   the reduction changes *every* clamped scalar (`clamped_scalar_ge_L`) and the result
   differs from X25519 outside the prime-order subgroup (concrete witnesses);
@@ -28,7 +34,13 @@ What is proved about dryoc's own code (`Model.Curve`, mirroring
   `crypto_kx` (`scalarmult_small_order`, `kx_refuses_low_order`): nothing of the small-order table
   remains merely enumerated.
 
-NOT proved, and made explicit as named hypotheses (`BaseReduceOK`, `BaseEdwardsOK`): the model's
+* a clamped scalar is never a multiple of the group order (`clamped_not_multiple_of_L`, arithmetic only),
+  so under the named curve hypothesis `HonestNonzero` the shared secret of two honest key pairs is never
+  all-zero and `kx_mirror`'s hypothesis `hnz` is discharged (`kx_mirror_honest`; with `LadderCommutes`
+  also `hdh`: `kx_mirror_honest'`).
+
+NOT proved, and made explicit as named hypotheses (`BaseReduceOK`, `BaseEdwardsOK`, and for honest key
+pairs `HonestNonzero`, `LadderCommutes`): the model's
 `scalarmultBase` is the Montgomery ladder on the clamped scalar, whereas the Rust
 `crypto_scalarmult_curve25519_base` multiplies the Edwards base-point table by the clamped scalar
 reduced mod L and maps the result to Montgomery form.  That the two agree is a fact about the curve
@@ -88,8 +100,14 @@ theorem decodeScalar_eq (n : Bytes) (h : n.length = 32) :
     Spec.X25519.decodeScalar25519 n = le (clamp n) := by
   rw [Spec.X25519.decodeScalar25519, clamp_eq_spec n h]
 
-/-- dryoc's `crypto_scalarmult_curve25519` (ladder driven by the clamped scalar itself, no
-reduction modulo the group order) is RFC 7748's X25519 -/
+/-- The MODEL of `crypto_scalarmult_curve25519` — by definition the ladder driven by the clamped scalar
+itself, with no reduction modulo the group order — instantiated with the RFC ladder, is RFC 7748's X25519.
+This is essentially definitional (unfolding plus `clamp_eq_spec`: dryoc's clamp shape = RFC 7748's).
+About the Rust: after the E1 fix the function is the single call `MontgomeryPoint(*p).mul_clamped(*n)`
+into curve25519-dalek, so neither the clamp nor the ladder it runs is dryoc's code; that this call computes
+X25519 is checked DIFFERENTIALLY (driver vs. crate on the `scalarmult` rows), not proved here.  The
+theorem's content for the code is: the shape that the fix restored (no `mod L`) is the RFC's, whereas the
+pre-fix shape is not (`scalarmultReduced_ne_x25519`). -/
 theorem scalarmult_eq_x25519 (n p : Bytes) (h : n.length = 32) :
     scalarmult specPrims n p = Spec.X25519.x25519 n p := by
   simp only [scalarmult, specPrims, rawLadder, Spec.X25519.x25519, decodeScalar_eq n h]
@@ -238,7 +256,10 @@ example (pk : Bytes) :
 
 /-- If the two Diffie–Hellman computations agree (commutativity of scalar multiplication —
 a property of the group, taken as a hypothesis) and the result is not all-zero, then the
-client's rx is the server's tx and the client's tx is the server's rx. -/
+client's rx is the server's tx and the client's tx is the server's rx.
+For HONEST key pairs (public keys computed by `scalarmultBase`) the hypothesis `hnz` is discharged by
+`honest_shared_secret_nonzero` under the named curve hypothesis `HonestNonzero`, and `hdh` is the named
+hypothesis `LadderCommutes`: see `kx_mirror_honest`, `kx_mirror_honest'` in section 10'. -/
 theorem kx_mirror (P : Prims) (cpk csk spk ssk : Bytes)
     (hdh : scalarmult P csk spk = scalarmult P ssk cpk)
     (hnz : scalarmult P csk spk ≠ zeros 32) :
@@ -512,7 +533,19 @@ key pairs).  Dependants: every statement that identifies the Rust
 `crypto_scalarmult_curve25519_base` with the model's `scalarmultBase` — i.e. the transfer of
 `scalarmultBase_eq`, `scalarmultBase_eq_of_le`, `scalarmultBase_eq_scalarmult`, and in C13
 `boxSeedKeypair_spec`, `kxSeedKeypair_spec`, `boxSeedKeypair_pk`, `kxSeedKeypair_pk`,
-`converted_pair_consistent`, `fromSecretKey_*`, `deriveKeypair_*` to the Rust code. -/
+`converted_pair_consistent`, `fromSecretKey_*`, `deriveKeypair_*` to the Rust code;
+in C01 every sealed-box theorem for `Model.boxPrims` / `specPrims`, whose ephemeral public key is
+`dhBase esk = Spec.X25519.x25519Base esk` while the Rust takes it from `crypto_box_keypair` →
+`crypto_scalarmult_curve25519_base`: `model_eq_spec_boxSeal`, `model_eq_spec_boxSeal_boxPrims`,
+`model_eq_spec_objSeal_boxPrims`, `seal_roundtrip_concrete`, `seal_obj_roundtrip_concrete`,
+`boxSeal_oversized_boxPrims`, and `open_seal_boxSeal`, `open_seal_objSeal`, `forms_agree_boxSeal_boxEasy`,
+`forms_agree_objSeal_boxSeal` when instantiated with these primitives (and C02's
+`untampered_accepted_sealOpen` / `…objUnseal` likewise);
+in this file the theorems and non-vacuity witnesses whose public keys are `scalarmultBase specPrims …`:
+`honest_shared_secret_nonzero`, `kx_mirror_honest`, `kx_mirror_honest'`, the witness of `kx_mirror'`,
+the witness "the hypotheses of `kx_mirror` are satisfiable" and the witnesses of `HonestNonzero` /
+`kx_mirror_honest` (their public keys are the ladder's; the Rust's `crypto_kx_keypair` public keys are the
+Edwards table's). -/
 def BaseEdwardsOK : Prop :=
   ∀ n : Bytes, n.length = 32 → scalarmultBaseEdwards n = Spec.X25519.x25519Base n
 
@@ -557,6 +590,120 @@ example : scalarmultBaseEdwards (List.replicate 32 0xff) =
 example : scalarmultReduced specPrims (List.replicate 32 0xff) Spec.X25519.basePoint =
     Spec.X25519.x25519Base (List.replicate 32 0xff) := by
   set_option maxRecDepth 100000 in decide
+
+/-! ### 10': the shared secret of two honest key pairs is not all-zero
+
+`kx_mirror` needs `hnz : shared secret ≠ 0³²`.  For honest pairs this splits into an arithmetic core, proved
+here without any group law, and one curve fact, named and left as a hypothesis next to `BaseReduceOK`. -/
+
+/-- **Arithmetic core.**  A clamped scalar is never a multiple of the group order `L`: it is a multiple of
+8, `gcd(8, L) = 1`, so `L ∣ k` would give `8L ∣ k`, but `0 < 2^254 ≤ k < 2^255 < 8L`.  (Hence `[k]B ≠ O` for
+a base point of order `L`, and `[k]Q ≠ O` for every `Q` of order `L`.) -/
+theorem clamped_not_multiple_of_L (n : Bytes) (h : n.length = 32) : ¬ L ∣ le (clamp n) :=
+  Proofs.CurveHonest.clamped_not_multiple_of_L n h
+
+/-- only `gcd(8, L) = 1` is used about `L` (not its primality) -/
+theorem coprime_8_L : Nat.gcd 8 L = 1 := Proofs.CurveHonest.coprime_8_L
+
+/-- **Unproved curve fact, honest shared secrets**: "the base point u = 9 has order `L` on the Montgomery
+curve, the ladder computes `x([a]Q)` from `x(Q)`, and `x = 0` only at the point of order 2 (the ladder's
+output 0 also stands for the neutral element)".  In ladder terms: for scalars below 2^255 that are not
+multiples of `L`, the ladder of the ladder on u = 9 is not 0.  Not provable without the group law;
+instances are evaluated below and the implementation is compared differentially (`kx` rows). -/
+def HonestNonzero : Prop :=
+  ∀ a b : Nat, a < 2 ^ 255 → b < 2 ^ 255 → ¬ L ∣ a → ¬ L ∣ b →
+    Spec.X25519.ladder a (Spec.X25519.ladder b 9) ≠ 0
+
+/-- **Unproved curve fact, commutativity**: `x([a][b]B) = x([b][a]B)` — scalar multiplication commutes;
+in ladder terms, on u = 9.  (The hypothesis `hdh` of `kx_mirror`, named.) -/
+def LadderCommutes : Prop :=
+  ∀ a b : Nat, a < 2 ^ 255 → b < 2 ^ 255 →
+    Spec.X25519.ladder a (Spec.X25519.ladder b 9) = Spec.X25519.ladder b (Spec.X25519.ladder a 9)
+
+/-- the shared secret of `sk` with the honest public key `scalarmultBase sk'` is the (encoded) ladder of the
+ladder on u = 9 with the two clamped scalars -/
+theorem scalarmult_honest (sk sk' : Bytes) :
+    scalarmult specPrims sk (scalarmultBase specPrims sk')
+      = Spec.X25519.encodeUCoordinate
+          (Spec.X25519.ladder (le (clamp sk)) (Spec.X25519.ladder (le (clamp sk')) 9)) :=
+  Proofs.CurveHonest.scalarmult_honest sk sk'
+
+/-- Under `HonestNonzero`, `crypto_scalarmult(sk, pk')` with an honest peer key `pk' = scalarmult_base(sk')`
+is never all-zero, for all 32-byte secret keys: the premises "not a multiple of `L`" are
+`clamped_not_multiple_of_L`.  (Public keys are the model's `scalarmultBase`: transfer to the Rust under
+`BaseEdwardsOK`.) -/
+theorem honest_shared_secret_nonzero (h : HonestNonzero) (sk sk' : Bytes)
+    (h1 : sk.length = 32) (h2 : sk'.length = 32) :
+    scalarmult specPrims sk (scalarmultBase specPrims sk') ≠ zeros 32 := by
+  rw [scalarmult_honest, Ne, Proofs.CurveHonest.encodeU_eq_zeros_iff,
+    Nat.mod_eq_of_lt (Proofs.CurveHonest.ladder_lt _ _)]
+  exact h _ _ (clamp_range sk h1).2.1 (clamp_range sk' h2).2.1
+    (clamped_not_multiple_of_L sk h1) (clamped_not_multiple_of_L sk' h2)
+
+/-- **`kx_mirror` for honest pairs**: client `(cpk, csk)` and server `(spk, ssk)` with
+`cpk = scalarmult_base(csk)`, `spk = scalarmult_base(ssk)`.  Under `HonestNonzero` the non-zero hypothesis
+of `kx_mirror` is discharged; what remains is the Diffie–Hellman agreement `hdh`. -/
+theorem kx_mirror_honest (h : HonestNonzero) (csk ssk : Bytes) (hc : csk.length = 32) (hs : ssk.length = 32)
+    (hdh : scalarmult specPrims csk (scalarmultBase specPrims ssk)
+         = scalarmult specPrims ssk (scalarmultBase specPrims csk)) :
+    ∃ rx tx,
+      kxClient specPrims (scalarmultBase specPrims csk) csk (scalarmultBase specPrims ssk) = .ok (rx, tx) ∧
+      kxServer specPrims (scalarmultBase specPrims ssk) ssk (scalarmultBase specPrims csk) = .ok (tx, rx) :=
+  kx_mirror specPrims _ csk _ ssk hdh (honest_shared_secret_nonzero h csk ssk hc hs)
+
+/-- … and under both named curve hypotheses nothing remains: every two honest key pairs derive mirrored
+session keys, and neither side errs -/
+theorem kx_mirror_honest' (h : HonestNonzero) (hcomm : LadderCommutes) (csk ssk : Bytes)
+    (hc : csk.length = 32) (hs : ssk.length = 32) :
+    ∃ rx tx,
+      kxClient specPrims (scalarmultBase specPrims csk) csk (scalarmultBase specPrims ssk) = .ok (rx, tx) ∧
+      kxServer specPrims (scalarmultBase specPrims ssk) ssk (scalarmultBase specPrims csk) = .ok (tx, rx) :=
+  kx_mirror_honest h csk ssk hc hs (by
+    rw [scalarmult_honest, scalarmult_honest,
+      hcomm _ _ (clamp_range csk hc).2.1 (clamp_range ssk hs).2.1])
+
+/-- the honest case never hits the all-zero refusal (under `HonestNonzero`) -/
+theorem kx_honest_not_refused (h : HonestNonzero) (cpk csk ssk : Bytes)
+    (hc : csk.length = 32) (hs : ssk.length = 32) :
+    kxClient specPrims cpk csk (scalarmultBase specPrims ssk) ≠ .err := by
+  rw [Ne, kxClient_err_iff]
+  exact honest_shared_secret_nonzero h csk ssk hc hs
+
+/-- non-vacuity witness for `clamped_not_multiple_of_L`: the all-zero and the all-ones secret key (kernel
+evaluation of the divisibility, independent of the proof) -/
+example : ¬ L ∣ le (clamp (zeros 32)) ∧ ¬ L ∣ le (clamp (List.replicate 32 0xff)) := by
+  constructor <;> decide
+
+/-- the bound `2^255 < 8L` used in `clamped_not_multiple_of_L` is the right one: `4L < 2^255`, so without
+the divisibility by 8 the argument fails — `4L` itself lies in the clamped range `[2^254, 2^255)` -/
+example : 2 ^ 254 ≤ 4 * L ∧ 4 * L < 2 ^ 255 ∧ L ∣ 4 * L ∧ ¬ 8 ∣ 4 * L := by decide
+
+/-- instances of `HonestNonzero` and `LadderCommutes` (kernel evaluation of four ladders): the secret keys
+0³² and 8 ‖ 0³¹; the premises hold by `clamped_not_multiple_of_L` -/
+example :
+    let a := le (clamp (zeros 32))
+    let b := le (clamp (8 :: zeros 31))
+    a < 2 ^ 255 ∧ b < 2 ^ 255 ∧ ¬ L ∣ a ∧ ¬ L ∣ b ∧
+    Spec.X25519.ladder a (Spec.X25519.ladder b 9) ≠ 0 ∧
+    Spec.X25519.ladder a (Spec.X25519.ladder b 9) = Spec.X25519.ladder b (Spec.X25519.ladder a 9) := by
+  refine ⟨by decide, by decide, clamped_not_multiple_of_L _ (by decide),
+    clamped_not_multiple_of_L _ (by decide), ?_, ?_⟩
+  · set_option maxRecDepth 100000 in decide +kernel
+  · set_option maxRecDepth 100000 in decide +kernel
+
+/-- the conclusion of `honest_shared_secret_nonzero` / the hypothesis `hdh` of `kx_mirror_honest` on the
+same instance, through the byte-level model (public keys `scalarmultBase specPrims …`: `BaseEdwardsOK`
+dependants) -/
+example :
+    scalarmult specPrims (zeros 32) (scalarmultBase specPrims (8 :: zeros 31)) ≠ zeros 32 ∧
+    scalarmult specPrims (zeros 32) (scalarmultBase specPrims (8 :: zeros 31))
+      = scalarmult specPrims (8 :: zeros 31) (scalarmultBase specPrims (zeros 32)) := by
+  set_option maxRecDepth 100000 in decide +kernel
+
+/-- the restriction "not a multiple of `L`" in `HonestNonzero` is needed: `[L]·9` is the neutral element,
+encoded as 0 (this is also the instance `k = L` of the fact behind `BaseReduceOK`) -/
+example : Spec.X25519.ladder L 9 = 0 := by
+  set_option maxRecDepth 100000 in decide +kernel
 
 /-! ### non-vacuity -/
 
